@@ -57,17 +57,21 @@ def analyse(base, chk, fname, variant="distinct"):
             continue
         # ---- writes
         inside = 0
+        stack = []
         bad_global, bad_arg = [], []
         for ev in p.log:
             if ev[0] == "once_begin":
-                inside += 1
+                # only the initialiser of a package-level sync.Once may build package-level data (lazily built tables)
+                stack.append(1 if ex.meta[ev[1]].kind == "global" else 0)
+                inside = sum(stack)
             elif ev[0] == "once_end":
-                inside -= 1
+                stack.pop()
+                inside = sum(stack)
             elif ev[0] == "w":
                 oid = ev[1]
                 m = ex.meta.get(oid)
                 if m is not None and m.kind == "global":
-                    if not (m.name in ONCE_TABLES and inside > 0):
+                    if not inside > 0:
                         bad_global.append((m.name, ev[2]))
                 elif oid in r.pre_objs:
                     if recv is not None and oid == recv.obj:
